@@ -36,7 +36,7 @@ def cases(draw, ob_mappings=False):
     gen.OB_MAPPING_ARGS['on'] = ob_mappings
     gen.VALUE_STRATEGY['current'] = gen.param_values_cfgdir
     base = draw(gen.cases(max_modules=3, max_tasks=3, kinds=['dict', 'list', 'str', 'numpy', 'dir', 'generator']))
-    kinds = ['perm_keys', 'perm_keys', 'fmt_swap', 'wrap_ns'] if ob_mappings else mutate.PRESERVING
+    kinds = ['perm_keys', 'perm_keys', 'fmt_swap', 'wrap_ns'] if ob_mappings else mutate.PRESERVING + ['spell_default'] * 3
     case2, prefix, labels = draw(mutate.rewrite(base, kinds, n_max=3))
     return {'base': base, 'rewritten': case2, 'prefix': prefix, 'labels': labels}
 
